@@ -462,7 +462,7 @@ class Unit:
                     raise Undecided(f"select! in {key} does not parse as `pat = fut => body` arms")
                 eds += self._select_edits(src, n)
             if n["k"] == "macro" and n["path"].split("::")[-1] == "join":
-                raise Undecided(f"join! in {key}: no catalogued expansion in this unit")
+                eds += self._join_edits(src, it, n, key)
         # E4
         gp = spec.ghostparam
         if gp:
@@ -846,6 +846,37 @@ class Unit:
                 reg("callee-precondition", n["path"], n)
             elif n["k"] == "macro" and n["path"].split("::")[-1] in self.PANIC_MACROS:
                 reg("panic-reachable", n["path"].split("::")[-1] + "!", n)
+
+    def _join_edits(self, src, it, n, key):
+        """E3 (join): `join!(f1, f2)` where f1, f2 are locals bound by `let fi = <call>;` (futures
+        that were created but not awaited).  The binding statements are removed and the join is
+        replaced by a demonic choice between the two orders in which the node may serve the two
+        calls; the call texts are copied verbatim (ghost argument appended as for E4)."""
+        if "args" not in n or len(n["args"]) != 2:
+            raise Undecided(f"join! in {key}: only the two-future form is catalogued")
+        names = [src.text(*a).strip() for a in n["args"]]
+        eds, exprs = [], []
+        for nm in names:
+            hits = [st for st in it["nodes"] if st["k"] == "stmt" and st["kind"] == "let"
+                    and re.match(r"let\s+" + re.escape(nm) + r"\s*=", src.text(*st["span"]))]
+            if len(hits) != 1:
+                raise Undecided(f"join! in {key}: `{nm}` is not bound by exactly one let statement")
+            txt = src.text(*hits[0]["span"])
+            m = re.match(r"let\s+\w+\s*=\s*(.*);\s*$", txt, re.S)
+            ex = m.group(1).strip()
+            mm = re.search(r"\.(\w+)\s*\([^()]*\)\s*$", ex, re.S)
+            if mm and ("m:" + mm.group(1)) in self.ghost_callees and ex.endswith(")"):
+                g = self.ghost_callees["m:" + mm.group(1)]
+                g = g[0] if isinstance(g, tuple) else g
+                ex = ex[:-1] + ", " + g + ")"
+            exprs.append(ex)
+            eds.append((hits[0]["span"][0], hits[0]["span"][1], "", None))
+        a, b = exprs
+        rep = (f"if nondet() {{ let __j0 = {a}; let __j1 = {b}; (__j0, __j1) }} "
+               f"else {{ let __j1 = {b}; let __j0 = {a}; (__j0, __j1) }}")
+        eds.append((n["span"][0], n["span"][1], rep, None))
+        self._log("E3", src, n["span"][0], "join!(f1, f2)", "demonic choice between both orders of the two calls")
+        return eds
 
     def _select_edits(self, src, n):
         """E3: tokio::select! { p = fut => body, ... }  ==>
